@@ -8,6 +8,7 @@ import (
 	"crypto/md5"
 	"encoding/hex"
 	"fmt"
+	"os"
 	"sort"
 	"strconv"
 	"strings"
@@ -22,6 +23,7 @@ import (
 	"lunar/engine/utils/limit"
 	"lunar/engine/utils/obfuscation"
 	sharedConfig "lunar/shared-model/config"
+	contextmanager "lunar/toolkit-core/context-manager"
 	"lunar/toolkit-core/logging"
 
 	"github.com/rs/zerolog"
@@ -191,6 +193,7 @@ func exec(c proto.Case, o *proto.Out) []string {
 		panic("harness: " + err.Error())
 	}
 	tbl := map[int]*sharedConfig.Remedy{}
+	disp := &dispatchState{}
 	pre := map[string]string{md5hex(""): ""} // hash -> header value
 	passed, blocked := false, false
 	for i, op := range c.Ops {
@@ -200,6 +203,21 @@ func exec(c proto.Case, o *proto.Out) []string {
 			continue
 		}
 		switch w[0] {
+		case "dpol":
+			outs[i] = guarded(func() string { return disp.addPol(w[1:]) })
+			if outs[i] == "panic" {
+				outs[i] = "bad-op"
+			}
+		case "dload":
+			outs[i] = guarded(func() string { return disp.load(tmpDir()) })
+		case "dreq":
+			outs[i] = guarded(func() string { return disp.req(w[1:]) })
+			o.Count("dreq-" + strings.Fields(outs[i])[0])
+			if strings.HasPrefix(outs[i], "pass") {
+				passed = true
+			} else if strings.HasPrefix(outs[i], "early") {
+				blocked = true
+			}
 		case "wiring":
 			h, _ := proto.KV(w, "hasher")
 			if i == 0 && (h == "identity" || h == "md5") {
@@ -391,7 +409,27 @@ func exec(c proto.Case, o *proto.Out) []string {
 	return outs
 }
 
+var tmpDirOnce sync.Once
+var tmpDirPath string
+
+func tmpDir() string {
+	tmpDirOnce.Do(func() {
+		d, err := os.MkdirTemp("", "verif-c09-")
+		if err != nil {
+			panic("harness: " + err.Error())
+		}
+		tmpDirPath = d
+	})
+	return tmpDirPath
+}
+
 func main() {
+	defer func() {
+		if tmpDirPath != "" {
+			os.RemoveAll(tmpDirPath)
+		}
+	}()
+	contextmanager.Get().SetMockClock()
 	time.Local = time.UTC // time.Time.Day() in the spill-over renewal is evaluated in the local zone
 	zerolog.SetGlobalLevel(zerolog.Disabled)
 	proto.Main(proto.Harness{Rule: rule, Gen: gen, Exec: exec})
